@@ -195,4 +195,64 @@ where
   | .waiterReleased i res :: tr => .joinResolved res :: .waiterReleased i res :: tr
   | e :: tr => e :: elaborateDrained tr
 
+
+/-! ## The HTTPS arm of the accept loop
+
+`HttpServerStarter::start` has two copies of the accept loop.  In the HTTPS
+copy the acceptor (`HttpsAcceptor`, which owns the listener) is a local of the
+`match` arm and is dropped when the loop `break`s on the close signal; in the
+plain copy the listener lives until the server task has finished.  So over
+HTTPS a connect is refused from `AcceptStopped` on - while in-flight requests
+are still being served.  Everything else is the same protocol. -/
+
+/-- The listener has been dropped (HTTPS arm). -/
+def Phase.listenerClosedTls : Phase → Bool
+  | .serving => false
+  | .closeRequested => false
+  | _ => true
+
+def isConnectEvent : Event → Bool
+  | .connectRefused => true
+  | .connectAccepted => true
+  | _ => false
+
+def stepTls (m : Mode) (s : State) : Event → Option State
+  | .connectRefused => if s.phase.listenerClosedTls then some s else none
+  | .connectAccepted => if s.phase.listenerClosedTls then none else some s
+  | e => step m s e
+
+def runTls (m : Mode) (s : State) : List Event → Option State
+  | [] => some s
+  | e :: tr =>
+    match stepTls m s e with
+    | some s' => runTls m s' tr
+    | none => none
+
+def acceptsSettledTls (m : Mode) (tr : List Event) : Bool :=
+  match runTls m init tr with
+  | some s => settled s
+  | none => false
+
+def firstRejectedTls (m : Mode) : State → List Event → Nat → Option (Nat × Event)
+  | _, [], _ => none
+  | s, e :: tr, i =>
+    match stepTls m s e with
+    | some s' => firstRejectedTls m s' tr (i + 1)
+    | none => some (i, e)
+
+/-- Placement of the internal events for an HTTPS trace: `AcceptStopped` immediately
+before the first refused connect or released waiter, `Drained` and `JoinResolved res`
+immediately before the first released waiter. -/
+def elaborateTls : List Event → List Event
+  | [] => []
+  | .connectRefused :: tr => .acceptStopped :: .connectRefused :: elaborateStopped tr
+  | .waiterReleased i res :: tr =>
+    .acceptStopped :: .drained :: .joinResolved res :: .waiterReleased i res :: tr
+  | e :: tr => e :: elaborateTls tr
+where
+  elaborateStopped : List Event → List Event
+  | [] => []
+  | .waiterReleased i res :: tr => .drained :: .joinResolved res :: .waiterReleased i res :: tr
+  | e :: tr => e :: elaborateStopped tr
+
 end Dropshot.Shutdown
